@@ -25,6 +25,8 @@ type VerifHooks struct {
 	// WorkerEvent is called when the worker loop starts ("run.start": more than once means it was
 	// restarted after a panic) and after its shutdown cleanup ("run.end").
 	WorkerEvent func(ev string)
+	// WorkerStep is called in the worker loop's case bodies right after an input was taken from its channel.
+	WorkerStep func(ev string, h uint64, v uint64)
 }
 
 var verifRegistry sync.Map // *WorkerLoop | *MainLoop -> *VerifHooks
@@ -75,6 +77,12 @@ func verifMainEvent(m *MainLoop, ev string, h uint64, v uint64) {
 func verifWorkerEvent(lh *WorkerLoop, ev string) {
 	if h := verifWorkerHooks(lh); h != nil && h.WorkerEvent != nil {
 		h.WorkerEvent(ev)
+	}
+}
+
+func verifWorkerStep(lh *WorkerLoop, ev string, h uint64, v uint64) {
+	if hk := verifWorkerHooks(lh); hk != nil && hk.WorkerStep != nil {
+		hk.WorkerStep(ev, h, v)
 	}
 }
 
